@@ -366,6 +366,69 @@ pub fn gen_header(rng: &mut Rng, o: &HeaderOpts) -> HeaderDesc {
     h
 }
 
+/// Adds the shapes of "other" meta lines a key-indexed header model tends to lose (call after
+/// `gen_header`; kept out of it so that users of `gen_header` keep their streams): the same
+/// unstructured `##key=value` line 2 or 3 times (adjacent, or separated by other lines), one key with
+/// distinct values (and one value repeated between them), structured lines of one key whose non-ID
+/// fields are equal. Returns the names of the shapes added.
+pub fn add_other_line_variants(rng: &mut Rng, h: &mut HeaderDesc) -> Vec<&'static str> {
+    let mut added = Vec::new();
+    let place = |rng: &mut Rng, h: &mut HeaderDesc, l: OtherLine, adjacent_to: Option<usize>| -> usize {
+        let at = match adjacent_to {
+            Some(p) => p + 1,
+            None => rng.urange(0, h.others.len()),
+        };
+        h.others.insert(at, l);
+        at
+    };
+    let un = |k: &str, v: &str| OtherLine::Unstructured { key: k.into(), value: v.into() };
+    if rng.chance(1, 2) {
+        // two equal copies, adjacent
+        let p = place(rng, h, un("annotateCommand", "annotate --db x.vcf --mark \"a b\""), None);
+        place(rng, h, un("annotateCommand", "annotate --db x.vcf --mark \"a b\""), Some(p));
+        added.push("equal-x2-adjacent");
+    }
+    if rng.chance(1, 2) {
+        // three equal copies, wherever they fall
+        for _ in 0..3 {
+            place(rng, h, un("bcftools_viewCommand", "view -Ob in.vcf; Date=Mon Jan  1 00:00:00 2024"), None);
+        }
+        added.push("equal-x3-scattered");
+    }
+    if rng.chance(1, 3) {
+        // two equal copies with at least one other line between them
+        h.others.insert(0, un("cmdline", "tool run"));
+        h.others.push(un("spacer", "1"));
+        h.others.push(un("cmdline", "tool run"));
+        added.push("equal-x2-separated");
+    }
+    if rng.chance(1, 2) {
+        place(rng, h, un("history", "step one"), None);
+        place(rng, h, un("history", "step two"), None);
+        if rng.bool() {
+            place(rng, h, un("history", "step one"), None);
+            added.push("distinct-values-one-repeated");
+        } else {
+            added.push("distinct-values");
+        }
+    }
+    if rng.chance(1, 2) {
+        for id in ["a1", "a2", "a3"] {
+            place(rng, h, OtherLine::Structured { key: "annotation".into(), id: id.into(), fields: vec![("Tool".into(), "vep".into()), ("Version".into(), "110.1".into())] }, None);
+        }
+        added.push("structured-equal-fields");
+    }
+    if h.fileformat >= (4, 3) && rng.chance(1, 3) {
+        for id in ["Organ", "Stage"] {
+            if !h.others.iter().any(|l| matches!(l, OtherLine::Structured { key, id: i, .. } if key == "META" && i == id)) {
+                place(rng, h, OtherLine::Structured { key: "META".into(), id: id.into(), fields: vec![("Type".into(), "String".into()), ("Number".into(), ".".into()), ("Values".into(), "[A, B]".into())] }, None);
+            }
+        }
+        added.push("meta-equal-fields");
+    }
+    added
+}
+
 /// Assigns `IDX=` values. Same-named INFO/FILTER/FORMAT lines share one dictionary entry and so get
 /// the same index; `PASS` is always 0; contigs have their own dictionary.
 pub fn assign_idx(rng: &mut Rng, h: &mut HeaderDesc, mode: IdxMode) {
